@@ -211,6 +211,13 @@ def judge(chk, case, resp):
                       dict(replay, kind="wf", clause=d.get("clause"), module=d.get("module"), item=d.get("item"), line=ln,
                            source=src, names=case.get("names"), classes=classify(case, "wf")))
         return
+    if d.get("instances", "ok") != "ok":
+        ty, _, n = d["instances"].rpartition(":")
+        chk.hist("outcome", "instance_count")
+        report(chk, f"foreign instance of type {ty} occurs {n} times in the emitted RTLIL, expected exactly once "
+                      f"(stream {case['stream']}, design seed {case['seed']})",
+                      dict(replay, kind="instances", type=ty, count=n, names=case.get("names"), classes=[]))
+        return
     chk.hist("outcome", "ok")
     chk.hist("modules_emitted", d.get("modules"))
     nontrivial = int(d.get("cells", "0")) + int(d.get("procs", "0")) > 0
